@@ -143,7 +143,7 @@ impl Property for C18 {
         let exprs = expr_options(&case.opts);
         let kind: &str;
         // choose a corruption; fall back to one that is always possible
-        let choice = rng.below(21);
+        let choice = rng.below(24);
         let fresh_position = |rng: &mut Rng, expr: &str| -> Vec<String> {
             match rng.below(6) {
                 0 => vec![format!("--filter={expr}")],
@@ -275,6 +275,39 @@ impl Property for C18 {
                 needs.push(o.last().unwrap().clone());
                 case.opts[i] = o;
                 kind = "dropped-closer";
+            }
+            21 | 22 => {
+                // "=something" after a complete filter / split / group expression: only a
+                // selection may be followed by "=name", only a sort key by "=direction"
+                let e = *rng.pick(&["(> .n 0)", ".g", "(size .arr)", ".obj"]);
+                let g = *rng.pick(&["=big", " =DESC", "=ASC", "= x", "=c0"]);
+                let o = match rng.below(3) {
+                    0 => vec![format!("--filter={e}{g}")],
+                    1 => vec![format!("--split-by={e}{g}")],
+                    _ => vec![format!("--group-by={e}{g}")],
+                };
+                needs.push(o[0].clone());
+                replace_or_add(&mut case, o);
+                kind = "equals-garbage";
+            }
+            23 => {
+                // text output with --headers but without any selection
+                case.opts.retain(|o| {
+                    !(is_select(o)
+                        || o[0].starts_with("--output-style")
+                        || o[0] == "-o"
+                        || o[0].starts_with("--style")
+                        || o[0] == "--utf8-strings"
+                        || o[0] == "--headers")
+                });
+                case.opts.push(vec!["-o".into(), "text".into()]);
+                case.opts.push(vec!["--headers".into()]);
+                needs.push("--headers".into());
+                needs.push("text".into());
+                forbids.push("--select".into());
+                forbids.push("--choose".into());
+                forbids.push("-c".into());
+                kind = "text-headers-without-select";
             }
             16 if !exprs.is_empty() => {
                 // truncation to nothing: the expression is cut to length zero
